@@ -38,8 +38,8 @@ def prefix_related(a, b):
 class PyLogger:
     """light mirror used only to aim writes at the interesting sizes (exact fill, just below)"""
 
-    def __init__(self, name, max_size, max_count, rf=False):
-        self.name, self.max_size, self.max_count, self.rf = name, max_size, max_count, rf
+    def __init__(self, name, max_size, max_count, rf=False, lf=False):
+        self.name, self.max_size, self.max_count, self.rf, self.lf = name, max_size, max_count, rf, lf
         self.cur = set_ext_log(name)
 
     def write(self, d, total, ts):
@@ -50,6 +50,8 @@ class PyLogger:
         if d[self.cur] >= self.max_size:
             arch = set_ext_log(self.name + "." + ts + ".log")
             d[arch] = d.pop(self.cur)
+            if self.lf:
+                return          # listing fails after the rename: nothing trimmed, nothing written
             files = sorted(n for n in d if n.startswith(self.name))
             if len(files) >= self.max_count:
                 for f in files[:len(files) - self.max_count + 1]:
@@ -101,6 +103,28 @@ def old_ts(i):
     return "2020-01-%02dT00.00.00.000-15778368%011d" % (1 + i % 28, i)
 
 
+def gen_extras(rng, kind, avoid_prefixes, p_lf, p_dir):
+    """foreign directory entries that are not regular files: symbolic links that cannot be stat()-ed
+    (dangling, loop) -> every listing of the directory fails; sub-directories (also unreadable ones) ->
+    stat works, they are no files and must simply be ignored"""
+    extra = []
+    if rng.random() < p_lf:
+        for _ in range(rng.randint(1, 2)):
+            nm = rng.choice(["dangling", "loop", "zz.lnk", "0lnk"] + ({"dump": ["AuthorizationRules_l.json"], "ev": ["1000000000000000098.json"], "log": []}[kind]))
+            if any(e[1] == nm for e in extra) or any(nm.startswith(p) for p in avoid_prefixes):
+                continue
+            extra.append(("symlink", nm, nm if nm == "loop" or rng.random() < 0.3 else "nowhere"))
+    if rng.random() < p_dir:
+        nm = rng.choice(["subdir", "zdir.d"] + ({"dump": ["AuthorizationRules_dir.json"], "ev": ["1000000000000000097.json"], "log": []}[kind]))
+        if not any(e[1] == nm for e in extra) and not any(nm.startswith(p) for p in avoid_prefixes):
+            extra.append(("mkdir", nm, rng.choice(["000", "755"])))
+    return extra
+
+
+def extra_lines(h):
+    return ["%s %s %s" % e for e in h.get("extra", [])]
+
+
 def gen_log_history(rng, idx, quick, fault=None):
     """fault: None | "longname" (archive name > NAME_MAX) | "readonly" (directory not writable for the
     unprivileged uid the driver runs as: rename/create/remove fail, appends to existing files work)"""
@@ -111,6 +135,8 @@ def gen_log_history(rng, idx, quick, fault=None):
     else:
         names = weighted(rng, NAME_SETS)
     rf = {n for n in names if fault == "readonly" or rename_fails(n)}
+    extra = gen_extras(rng, "log", names, 0.15, 0.15) if fault is None else []
+    lf = any(e[0] == "symlink" for e in extra)
     cfgs = {}
     for n in names:
         cfgs[n] = [n, rng.choice([1, 50, 100, 200, 200, 300]), rng.choice([1, 2, 3, 4, 5])]
@@ -162,8 +188,8 @@ def gen_log_history(rng, idx, quick, fault=None):
     if not quick and rng.random() < 0.2:
         nops = rng.randint(150, 300)
     sim = dict(pre)
-    pys = {n: PyLogger(*cfgs[n], rf=n in rf) for n in names}
-    if fault:
+    pys = {n: PyLogger(*cfgs[n], rf=n in rf, lf=lf) for n in names}
+    if fault or lf:
         nops = rng.randint(15, 70)
     ops = []          # ("w", logger, len) | ("m", logger, [lens]) | ("restart", logger, [name, size, count])
     i = 0
@@ -178,7 +204,7 @@ def gen_log_history(rng, idx, quick, fault=None):
                 newcfg[1] = rng.choice([1, 50, 100, 200, 300])
                 newcfg[2] = rng.choice([1, 2, 3, 4, 5])
             cfgs[n] = newcfg
-            pys[n] = PyLogger(*newcfg, rf=n in rf)
+            pys[n] = PyLogger(*newcfg, rf=n in rf, lf=lf)
             ops.append(("restart", n, list(newcfg)))
             continue
         room = ms - cur
@@ -199,7 +225,7 @@ def gen_log_history(rng, idx, quick, fault=None):
             i += 1
             pys[n].write(sim, total, "2026-99-%06d" % i)
     return {"kind": "log", "id": idx, "names": names, "cfg_init": cfg_init, "pre": pre, "ops": ops[:nops],
-            "scenario": scenario, "fault": fault, "rf": sorted(rf)}
+            "scenario": scenario, "fault": fault, "rf": sorted(rf), "extra": extra, "lf": lf}
 
 
 def gen_ev_history(rng, idx, quick, stop=False):
@@ -236,7 +262,10 @@ def gen_ev_history(rng, idx, quick, stop=False):
         ops.append(("tick",))
         for _ in range(rng.randint(0, 4)):
             ops.append(("push", rng.choice([1, 2, 7])) if rng.random() < 0.5 else ("tick",))
-    return {"kind": "ev", "id": idx, "cap": cap, "pre": pre, "ops": ops, "scenario": scen, "stop": stop}
+    extra = gen_extras(rng, "ev", [], 0.25, 0.2)
+    extra = [e for e in extra if e[1] not in {nm for nm, _ in pre}]
+    return {"kind": "ev", "id": idx, "cap": cap, "pre": pre, "ops": ops, "scenario": scen, "stop": stop,
+            "extra": extra, "lf": any(e[0] == "symlink" for e in extra)}
 
 
 def gen_dump_history(rng, idx, quick):
@@ -258,7 +287,10 @@ def gen_dump_history(rng, idx, quick):
         if rng.random() < 0.08:
             mx = rng.choice([0, 1, 2, 3, 4, 5])
         ops.append(("dump", mx))
-    return {"kind": "dump", "id": idx, "pre": pre, "ops": ops, "scenario": scen}
+    extra = gen_extras(rng, "dump", [], 0.3, 0.2)
+    extra = [e for e in extra if e[1] not in {nm for nm, _ in pre}]
+    return {"kind": "dump", "id": idx, "pre": pre, "ops": ops, "scenario": scen,
+            "extra": extra, "lf": any(e[0] == "symlink" for e in extra)}
 
 
 # ------------------------------------------------------------------------------------------
@@ -276,6 +308,7 @@ def log_script(h, root):
         lines = ["fresh " + d]
         for nm, sz in h["pre"]:
             lines.append("put %s %d" % (nm, sz))
+        lines += extra_lines(h)
     for n in h["names"]:
         c = h["cfg_init"][n]
         lines.append("logger %s %s %d %d" % (n, n, c[1], c[2]))
@@ -302,15 +335,15 @@ def prepare_readonly(h, root):
 
 def parse_log_result(h, res):
     """res: parsed driver output lines of log_script(h) -> (initial listing, per-op listing or None, errors)"""
-    npre = (1 if h.get("fault") == "readonly" else 1 + len(h["pre"])) + len(h["names"])
-    l0 = {nm: sz for nm, sz, _ in res[npre]["ls"]}
+    npre = (1 if h.get("fault") == "readonly" else 1 + len(h["pre"]) + len(h.get("extra", []))) + len(h["names"])
+    l0 = {nm: sz for nm, sz, isf in res[npre]["ls"] if isf}
     rs, errs = [], []
     for o, r in zip(h["ops"], res[npre + 1:]):
         if o[0] == "restart":
             rs.append(None)
         else:
-            rs.append({nm: sz for nm, sz, isf in r["ls"]})
-            if r["r"] != "ok" and o[1] not in h["rf"]:
+            rs.append({nm: sz for nm, sz, isf in r["ls"] if isf})     # regular files only
+            if r["r"] != "ok" and o[1] not in h["rf"] and not h.get("lf"):
                 errs.append(r["r"])     # a refused write is expected only where archiving fails
     return l0, rs, errs
 
@@ -332,6 +365,7 @@ def ev_script(h, root):
     lines = ["fresh " + d]
     for nm, sz in h["pre"]:
         lines.append("put %s %d" % (nm, sz))
+    lines += extra_lines(h)
     lines.append("evstart %s %d" % (d, h["cap"]))
     for o in h["ops"]:
         if o[0] == "push":
@@ -349,7 +383,7 @@ def ev_script(h, root):
 
 
 def parse_ev_result(h, res):
-    npre = 1 + len(h["pre"])
+    npre = 1 + len(h["pre"]) + len(h.get("extra", []))
     l0 = {nm: cnt for nm, cnt in res[npre]["ls"]}
     rs = []
     j = npre + 1
@@ -371,6 +405,7 @@ def dump_script(h, root):
     lines = ["fresh " + d]
     for nm, sz in h["pre"]:
         lines.append("put %s %d" % (nm, sz))
+    lines += extra_lines(h)
     lines.append("ls")
     for o in h["ops"]:
         lines.append("dump %d" % o[1])
@@ -390,7 +425,9 @@ Fixpoint b_of (s : string) : bytes :=
 Definition pad (w : nat) (i : N) : bytes := let d := dec i in List.app (List.repeat 48%N (w - List.length d)) d.
 Definition mts (i : N) : bytes := List.app (b_of "2026-99-") (pad 6 i).
 Definition W (c : logcfg) (i : N) (lens : list N) : op := OWrite c (mts i) lens.
+Definition WL (c : logcfg) (i : N) (lens : list N) : op := OWriteLF c (mts i) lens.
 Definition Dm (m : N) (i : N) : op := ODump m (mts i) 0%N.
+Definition TkL (i : N) : evop := ETickLF (List.app (b_of "18") (pad 17 i)).
 Definition Tk (i : N) : evop := ETick (List.app (b_of "18") (pad 17 i)).
 Definition P (n : string) (sz : N) : ent := (b_of n, sz, 0%N).
 (* a generated name: literal prefix, model time stamp of step i, literal suffix *)
@@ -490,6 +527,8 @@ def log_model_ops(h):
         lens = [HEADER + o[2]] if o[0] == "w" else o[2]
         if o[1] in h["rf"]:
             ops.append("OWriteRF c%d %s" % (cfgs.index(c), clist([cN(x) for x in lens], "N")))
+        elif h.get("lf"):
+            ops.append("WL c%d %s %s" % (cfgs.index(c), cN(i), clist([cN(x) for x in lens], "N")))
         else:
             ops.append("W c%d %s %s" % (cfgs.index(c), cN(i), clist([cN(x) for x in lens], "N")))
     lets = "".join("let c%d := %s in " % (k, c_cfg(c)) for k, c in enumerate(cfgs))
@@ -516,7 +555,7 @@ def ev_model_ops(h):
             ops.append("EPush %s" % cN(o[1]))
         elif o[0] == "tick":
             i += 1
-            ops.append("Tk %s" % cN(i))
+            ops.append(("TkL %s" if h.get("lf") else "Tk %s") % cN(i))
         elif o[0] == "stop":
             ops.append("EStop")
         else:
@@ -540,6 +579,8 @@ def ev_expr_full(h):
 
 
 def dump_model_ops(h):
+    if h.get("lf"):
+        return clist(["ODumpLF" for _ in h["ops"]], "op")
     return clist(["Dm %s %s" % (cN(o[1]), cN(i + 1)) for i, o in enumerate(h["ops"])], "op")
 
 
@@ -583,7 +624,7 @@ def to_model_names(steps, pre_names, keep, ts_re, model_name, size_of=None):
 # ------------------------------------------------------------------------------------------
 # the property itself, evaluated on what the real code did
 # ------------------------------------------------------------------------------------------
-def prop_log(h, listings0, results):
+def prop_log(h, listings0, results, check_count=True):
     """the property text evaluated on the real directory after every op (dict name->size);
     returns a description of the first failure or None"""
     tl = cfg_timeline(h)
@@ -629,7 +670,7 @@ def prop_log(h, listings0, results):
         if rolled:
             converged[n] = True
         # (2) file count
-        if converged[n] and cfg[2] >= 1 and len(after) > cfg[2]:
+        if check_count and converged[n] and cfg[2] >= 1 and len(after) > cfg[2]:
             return "logger %r keeps %d files > max %d" % (n, len(after), cfg[2])
         # (3) size: a file beyond the limit never grows again, a file within the limit grows by at
         #     most this one write; files that are not current never change
@@ -656,16 +697,16 @@ def prop_log(h, listings0, results):
     return None
 
 
-def prop_ev(h, listing0, results):
-    cap = h["cap"]
+def prop_ev(h, listing0, results, check_cap=True):
+    cap = h.get("configured", h["cap"])     # the CONFIGURED cap where the history comes from the config leg
     bound = max(cap, len(listing0))
     prev = dict(listing0)
     for o, d in zip(h["ops"], results):
         if d is None:
             continue
-        if len(d) > bound:
+        if check_cap and len(d) > bound:
             return "event directory holds %d files > max(cap %d, initial %d)" % (len(d), cap, len(listing0))
-        if len(prev) >= cap and set(d) != set(prev):
+        if check_cap and len(prev) >= cap and set(d) != set(prev):
             return "a flush at the cap (%d files >= %d) changed the event directory" % (len(prev), cap)
         if not set(prev) <= set(d):
             return "the event logger removed a file"
@@ -679,10 +720,10 @@ def prop_dump(h, listing0, results):
         mx = o[1]
         dumps_b = {f for f in prev if DUMP_RE.match(f)}
         dumps_a = {f for f in d if DUMP_RE.match(f)}
-        if mx >= 1 and len(dumps_a) > mx:
-            return "%d rule dumps kept > max %d" % (len(dumps_a), mx)
+        if mx >= 1 and len(dumps_a) > (max(mx, len(dumps_b)) if h.get("lf") else mx):
+            return "%d rule dumps kept > max %d%s" % (len(dumps_a), mx, " (%d before; the folder cannot be listed)" % len(dumps_b) if h.get("lf") else "")
         new = dumps_a - dumps_b
-        if len(new) != 1:
+        if len(new) != 1 and not (h.get("lf") and len(new) == 0):
             return "write_all did not leave exactly one new dump (%r)" % sorted(new)
         removed = dumps_b - dumps_a
         kept = dumps_a & dumps_b
@@ -744,6 +785,36 @@ def run(ctx):
         assert len(out) == len(lines), (len(out), len(lines))
         return [[json.loads(x) for x in out[a:a + n]] for a, n in spans]
 
+    # configuration leg: the cap comes from Config::get_max_event_file_count (real getter, private copy
+    # of the driver with its own proxy-agent.json) and goes to event_logger::start, as in
+    # provision::start_event_threads; the bound is judged against the CONFIGURED value
+    cfg_disagreements = []
+    default_cap = int(re.search(r"Definition default_max_event_file_count : N := (\d+)\.", consts).group(1))
+    if os.path.exists("/etc/azure/proxy-agent.json"):
+        ctx.notes.append("configuration leg skipped: /etc/azure/proxy-agent.json exists and would be read instead")
+    else:
+        import shutil
+        for ci, configured in enumerate([0, 1, 5, None, 2, 30]):
+            cd = os.path.join(ctx.scratch, "cfg%d" % ci)
+            os.makedirs(cd)
+            shutil.copy(bins["c19_rules"], os.path.join(cd, "c19_rules"))
+            cfg = {"logFolder": os.path.join(cd, "logs"), "eventFolder": os.path.join(cd, "events"), "latchKeyFolder": os.path.join(cd, "keys"),
+                   "monitorIntervalInSeconds": 60, "pollKeyStatusIntervalInSeconds": 15, "hostGAPluginSupport": 2,
+                   "ebpfProgramName": "ebpf_cgroup.o"}
+            if configured is not None:
+                cfg["maxEventFileCount"] = configured
+            json.dump(cfg, open(os.path.join(cd, "proxy-agent.json"), "w"))
+            o = [x[6:] for x in vplib.run_lines(os.path.join(cd, "c19_rules"), ["cfgcap"], timeout=120) if x.startswith("@@C19 ")]
+            real_cap = json.loads(o[0])["cap"]
+            mcap = vplib.coq_eval(ctx, "From GPA Require Import Disk.", ["configured_cap %s" % vplib.copt(None if configured is None else cN(configured), "N")], name="cfg%d" % ci)[0]
+            if mcap != real_cap:
+                cfg_disagreements.append({"case": {"kind": "config", "maxEventFileCount": configured}, "model": mcap, "impl": real_cap})
+            want = default_cap if configured is None else configured
+            for j in range(2):
+                h = gen_ev_history(rng, 10000 + 10 * ci + j, ctx.quick)
+                h.update({"cap": real_cap, "configured": want, "pre": [], "extra": [], "lf": False, "scenario": "config:%r" % configured,
+                          "ops": [op for _ in range(min(want, 6) + 4) for op in (("push", rng.choice([1, 2, 5])), ("tick",))]})
+                evs.append(h)
     impl_log = [parse_log_result(h, res) for h, res in zip(logs, run_batch(logs, log_script))]
     impl_ev = [parse_ev_result(h, res) for h, res in zip(evs, run_batch(evs, ev_script))]
     # event_logger::stop() is process-global: one process per history
@@ -776,9 +847,9 @@ def run(ctx):
     impl_dump = []
     for h, (a, n) in zip(dumps, spans):
         res = [json.loads(x) for x in out[a:a + n]]
-        npre = 1 + len(h["pre"])
-        l0 = {nm: sz for nm, sz, _ in res[npre]["ls"]}
-        impl_dump.append((l0, [{nm: sz for nm, sz, _ in r["ls"]} for r in res[npre + 1:]]))
+        npre = 1 + len(h["pre"]) + len(h.get("extra", []))
+        l0 = {nm: sz for nm, sz, isf in res[npre]["ls"] if isf}
+        impl_dump.append((l0, [{nm: sz for nm, sz, isf in r["ls"] if isf} for r in res[npre + 1:]]))
     ctx.log("implementation: %d log, %d event, %d dump histories run" % (len(logs), len(evs), len(dumps)))
 
     # ---------------- model (comparison inside coqc) ----------------
@@ -818,7 +889,7 @@ def run(ctx):
     ctx.log("model evaluated and compared")
 
     # ---------------- disagreements (details via the slow printing path) + property ----------------
-    disagreements, failures = [], []
+    disagreements, failures = list(cfg_disagreements), []
     steps = 0
     nontrivial = set()
     rolls = trims = drops = 0
@@ -837,7 +908,8 @@ def run(ctx):
             return "unavailable: %s" % str(ex)[:200], (expected[step] if step < len(expected) else None)
 
     for h, (l0, rs, errs), e, res in zip(logs, impl_log, exp_log, res_log):
-        case = {"kind": "log", "names": h["names"], "cfg_init": h["cfg_init"], "pre": h["pre"], "ops": h["ops"], "scenario": h["scenario"]}
+        case = {"kind": "log", "names": h["names"], "cfg_init": h["cfg_init"], "pre": h["pre"], "ops": h["ops"], "scenario": h["scenario"],
+                "fault": h.get("fault"), "extra": h.get("extra")}
         real = [r for r in rs if r is not None]
         steps += len(real)
         if errs:
@@ -858,11 +930,16 @@ def run(ctx):
                 if len(mk) <= len(prevn):
                     trims += 1
             prevn = mk
-        why = prop_log(h, l0, rs)
+        why = prop_log(h, l0, rs, check_count=not h.get("lf"))
         if why:
             failures.append({"case": case, "why": why, "impl": [sorted(r.items()) for r in real[:400]]})
+        elif h.get("lf"):
+            why = prop_log(h, l0, rs)
+            if why:     # only the count bound fails, in a directory whose listing fails: F-C19a
+                failures.append({"case": case, "why": why, "known_class": "unstatable_entry_log", "impl": [sorted(r.items()) for r in real[:60]]})
     for h, (l0, rs), e, res in zip(evs, impl_ev, exp_ev, res_ev):
-        case = {"kind": "event", "cap": h["cap"], "pre": h["pre"], "ops": h["ops"], "scenario": h["scenario"]}
+        case = {"kind": "event", "cap": h["cap"], "configured": h.get("configured", "n/a"), "pre": h["pre"], "ops": h["ops"],
+                "scenario": h["scenario"], "extra": h.get("extra")}
         steps += len(h["ops"])
         fd = first_diff(res)
         if fd is not None:
@@ -878,11 +955,15 @@ def run(ctx):
             if o[0] == "tick" and prevn is not None and mk == prevn and len(mk) >= h["cap"]:
                 drops += 1
             prevn = mk
-        why = prop_ev(h, l0, rs)
+        why = prop_ev(h, l0, rs, check_cap=not h.get("lf"))
         if why:
             failures.append({"case": case, "why": why, "impl": [sorted(r.items()) for r in rs if r is not None]})
+        elif h.get("lf"):
+            why = prop_ev(h, l0, rs)
+            if why:     # only the cap fails, in a directory whose listing fails: F-C19b
+                failures.append({"case": case, "why": why, "known_class": "unstatable_entry_events", "impl": [sorted(r.items()) for r in rs if r is not None]})
     for h, (l0, rs), e, res in zip(dumps, impl_dump, exp_dump, res_dump):
-        case = {"kind": "dump", "pre": h["pre"], "ops": h["ops"], "scenario": h["scenario"]}
+        case = {"kind": "dump", "pre": h["pre"], "ops": h["ops"], "scenario": h["scenario"], "extra": h.get("extra")}
         steps += len(rs)
         fd = first_diff(res)
         if fd is not None:
@@ -919,6 +1000,9 @@ def run(ctx):
             "log_histories_archive_name_too_long": sum(1 for h in logs if h.get("fault") == "longname"),
             "log_histories_directory_read_only(setpriv)": sum(1 for h in logs if h.get("fault") == "readonly"),
             "event_histories_with_stop": sum(1 for h in evs if h.get("stop")),
+            "histories_with_unstatable_entries(log/event/dump)": [sum(1 for h in hs if h.get("lf")) for hs in (logs, evs, dumps)],
+            "histories_with_sub_directories(log/event/dump)": [sum(1 for h in hs if any(e[0] == "mkdir" for e in h.get("extra", []))) for hs in (logs, evs, dumps)],
+            "event_histories_from_real_config_getter": sum(1 for h in evs if "configured" in h),
             "stop_with_queued_events_at_cap": sum(1 for h in evs if h.get("stop") and h["scenario"] in ("at_cap", "above")),
             "log_ops": sum(len(h["ops"]) for h in logs),
             "log_scenarios": {s: sum(1 for h in logs if h["scenario"] == s) for s in sorted({h["scenario"] for h in logs})},
@@ -939,7 +1023,12 @@ def run(ctx):
         "fault legs: only a failing fs::rename in archive_file is modelled (archive name > NAME_MAX; directory not writable for the logger's uid); other I/O faults are not",
     ]
 
+    known = {k["class"].split()[0]: k for k in vplib.known_findings("C19")}
+
     def known_filter(f):
+        k = known.get(f.get("known_class"))
+        if k:
+            return "%s [%s]: %s" % (k["id"], f["known_class"], k["what"][:160])
         return None
     verdict(ctx, proofs_ok, detail, disagreements, failures, known_filter,
             corr_name="Disk.write_many/ev_tick/write_all vs RollingLogger::write(_many)/event_logger::start/AuthorizationRulesForLogging::write_all")
